@@ -63,6 +63,7 @@ class Wrapper:
         self.kwlist = None
         self.fmt = None
         self.addr_vars = None
+        self.addr_bare = set()   # parse targets passed without `&`
         self.parse_call = None
         self._scan()
 
@@ -113,6 +114,7 @@ class Wrapper:
                             nm = t.get("ref")
                     elif a.get("k") == "DeclRefExpr":
                         nm = a.get("ref")
+                        self.addr_bare.add(nm)
                     self.addr_vars.append(nm)
 
     def format_units(self):
